@@ -14,6 +14,7 @@
 -/
 import AdaptixModel.Conv.Convert
 import AdaptixProofs.Lemmas.ConvMain
+import AdaptixProofs.Lemmas.ConvRefuse
 
 set_option linter.unusedSimpArgs false
 
@@ -278,6 +279,30 @@ theorem extra_src_ignored (recipe : List Provider) (req : LinkReq) (a b : List O
     linkOf recipe (req.withExtra a b e) = linkOf recipe req :=
   linkOf_withExtra req a b e hsrc hname recipe hrecipe
 
+/-- **Extra source fields are ignored — the converted object is the same** (value level).  For a pair of
+    models handled by the model coercer, the documented result with the source shape `a ++ e :: b` equals the
+    one with the shape `a ++ b`, for every source value and whatever the nested conversion `rec` is, as soon
+    as `e` is named like no destination field and no provider of the recipe can pick it.  (`coerceSpec_model`
+    identifies `specModel (coerceSpec … n) … ss.fields` with `coerceSpec … (n+1)` on a model pair; by
+    `convert_eq_spec` that is what every produced converter returns.) -/
+theorem extra_src_ignored_value (rec : SpecFn) (recipe : List Provider) (params : List CtxParam)
+    (pvals : List (Name × Val)) (src dst : LocStack) (ds : InShape) (a b : List OutField) (e : OutField)
+    (hfields : ∀ f ∈ ds.fields, e.id ≠ f.id ∧ ∀ p ∈ recipe,
+      p.ignoresField { srcStack := src, sources := a ++ b, params := params, dst := f.loc :: dst } e)
+    (v : Val) :
+    specModel rec recipe params pvals src dst ds (a ++ e :: b) v =
+      specModel rec recipe params pvals src dst ds (a ++ b) v :=
+  specModel_extra_ignored rec recipe params pvals src dst ds a b e hfields v
+
+/-- the model case of the specification *is* `specModel` of the nested specification -/
+theorem spec_model_case (W : World) (recipe : List Provider) (params : List CtxParam) (pvals : List (Name × Val))
+    (n : Nat) (sl dl : Loc) (srest drest : LocStack) (ds : InShape) (ss : OutShape)
+    (hu : userCoercer recipe (sl :: srest) (dl :: drest) = none)
+    (hin : W.inShape dl.ty = some ds) (hout : W.outShape sl.ty = some ss) (v : Val) :
+    coerceSpec W recipe params pvals (n + 1) (sl :: srest) (dl :: drest) v =
+      specModel (coerceSpec W recipe params pvals n) recipe params pvals (sl :: srest) (dl :: drest) ds ss.fields v :=
+  coerceSpec_model W recipe params pvals n sl dl srest drest ds ss hu hin hout v
+
 /-- an unlinked *required* field means no converter -/
 theorem unlinked_required_fails (recipe : List Provider) (req : LinkReq) (f : InField)
     (hl : linkOf recipe req = none) (hr : f.required = true) : fetchFieldLinking recipe req f = .failed := by
@@ -291,6 +316,68 @@ theorem unlinked_optional_policy (recipe : List Provider) (req : LinkReq) (f : I
   simp [fetchFieldLinking, hl, hr]
 
 theorem policy_default_forbids (dst : LocStack) : policyAllowed [] dst = false := rfl
+
+/-- **An unlinked field means no coercer — at any depth.**  If some field of the destination model has no
+    linking (`linkOf … = none`: no provider of the recipe answers and there is no same-named source) and it
+    is required, or optional while the policy does not allow skipping it, then no coercer is produced for the
+    pair of models — whatever the other fields are (`unlinked_required_fails` / `unlinked_optional_policy`
+    only say what `fetch_field_linking` answers for that one field). -/
+theorem unlinked_no_coercer (W : World) (recipe : List Provider) (params : List CtxParam) (n : Nat)
+    (sl dl : Loc) (srest drest : LocStack) (ds : InShape) (ss : OutShape)
+    (hu : userCoercer recipe (sl :: srest) (dl :: drest) = none)
+    (hin : W.inShape dl.ty = some ds) (hout : W.outShape sl.ty = some ss)
+    (f : InField) (hf : f ∈ ds.fields)
+    (hl : linkOf recipe
+      { srcStack := sl :: srest, sources := ss.fields, params := params, dst := f.loc :: dl :: drest } = none)
+    (hforbid : f.required = true ∨ policyAllowed recipe (f.loc :: dl :: drest) = false) :
+    mkCoercer W recipe params (n + 1) (sl :: srest) (dl :: drest) = none := by
+  apply mkCoercer_none_of_failed W recipe params n sl dl srest drest ds ss hu hin hout f hf
+  rcases hforbid with h | h
+  · simp [fetchFieldLinking, hl, h]
+  · cases hr : f.required <;> simp [fetchFieldLinking, hl, h, hr]
+
+/-- … hence no converter: `get_converter` / `impl_converter` fail (ProviderNotFoundError) for a signature
+    whose return model has such a field. -/
+theorem unlinked_no_converter (W : World) (recipe : List Provider) (fuel : Nat) (sig : Signature)
+    (first : SigParam) (extra : List SigParam) (hp : sig.params = first :: extra)
+    (ds : InShape) (ss : OutShape)
+    (hu : userCoercer recipe [{ kind := .field, ty := first.ty, fieldId := first.name }]
+      [{ kind := .typeHint, ty := sig.ret }] = none)
+    (hin : W.inShape sig.ret = some ds) (hout : W.outShape first.ty = some ss)
+    (f : InField) (hf : f ∈ ds.fields)
+    (hl : linkOf recipe
+      { srcStack := [{ kind := .field, ty := first.ty, fieldId := first.name }], sources := ss.fields,
+        params := extra.map SigParam.ctx, dst := [f.loc, { kind := .typeHint, ty := sig.ret }] } = none)
+    (hforbid : f.required = true ∨
+      policyAllowed recipe [f.loc, { kind := .typeHint, ty := sig.ret }] = false) :
+    provideConverter W recipe (fuel + 1) sig = none := by
+  have := unlinked_no_coercer W recipe (extra.map SigParam.ctx) fuel
+    { kind := .field, ty := first.ty, fieldId := first.name } { kind := .typeHint, ty := sig.ret } [] [] ds ss
+    hu hin hout f hf hl hforbid
+  simp only [provideConverter, hp]
+  split
+  · rfl
+  · simp [this]
+
+/-! ### the fuel is immaterial -/
+
+/-- **More fuel, same coercer.**  The fuel only bounds the nesting the generator model explores: once a
+    coercer is produced, every larger fuel produces the same one. -/
+theorem fuel_irrelevant (W : World) (recipe : List Provider) (params : List CtxParam) (n : Nat)
+    (src dst : LocStack) (c : Coercer) (h : mkCoercer W recipe params n src dst = some c) (m : Nat) (hm : n ≤ m) :
+    mkCoercer W recipe params m src dst = some c :=
+  mkCoercer_mono_le W recipe params n src dst c h m hm
+
+/-- … and the specification `convert_eq_spec` compares with does not depend on the fuel it is read at:
+    wherever a coercer exists, `coerceSpec` has the same value (defined or not) for every larger fuel. -/
+theorem spec_fuel_irrelevant (W : World) (hW : W.WF) (recipe : List Provider) (params : List CtxParam)
+    (ctxVals : List Val) (hlen : ctxVals.length = params.length) (hnd : (params.map (·.name)).Nodup)
+    (n : Nat) (src dst : LocStack) (c : Coercer) (h : mkCoercer W recipe params n src dst = some c)
+    (m : Nat) (hm : n ≤ m) (v : Val) :
+    coerceSpec W recipe params (pvalsOf params ctxVals) m src dst v =
+      coerceSpec W recipe params (pvalsOf params ctxVals) n src dst v := by
+  rw [← convert_eq_spec W hW recipe params ctxVals hlen hnd n src dst c h v,
+    ← convert_eq_spec W hW recipe params ctxVals hlen hnd m src dst c (fuel_irrelevant W recipe params n src dst c h m hm) v]
 
 /-! ### the generated code does not write -/
 
@@ -379,5 +466,304 @@ example : (provideConverter exOptWorld [] 5 (exOptSig exEmptyS exEmptyD)).map (f
     some (some (.obj 6 [])) := by rfl
 
 end Examples
+
+/-! ### Witnesses: the hypotheses of every theorem above hold together on concrete, non-degenerate data
+
+  `wWorld`: `S(a: int, b: int, items: List[IS])`, `IS(x: int)`;
+  `D(a: int, c: int = 7, *, b: int, items: Tuple[ID, ...])`, `ID(x: int)`.
+  Converter `(src: S, /, a: int, x: int) -> D` with `allow_unlinked_optional("c")`: two extra parameters
+  (the ctx value is a tuple), `a` shadows the top-level field, `x` is named like the *nested* field `ID.x`
+  and must not be used there. -/
+
+section Witnesses
+
+def wSrcT : Ty := .model 0 0
+def wDstT : Ty := .model 1 0
+def wItemS : Ty := .model 2 0
+def wItemD : Ty := .model 3 0
+
+def wDstShape : InShape :=
+  { cls := 1,
+    fields := [⟨"a", exInt, true, none⟩, ⟨"c", exInt, false, some (.atom "int" "7")⟩, ⟨"b", exInt, true, none⟩,
+      ⟨"items", .iter .tuple wItemD, true, none⟩],
+    params := [⟨"a", "a", .posOrKw⟩, ⟨"c", "c", .posOrKw⟩, ⟨"b", "b", .kwOnly⟩, ⟨"items", "items", .kwOnly⟩] }
+
+def wItemShape : InShape := { cls := 3, fields := [⟨"x", exInt, true, none⟩], params := [⟨"x", "x", .posOrKw⟩] }
+
+def wSrcFields : List OutField :=
+  [⟨"a", exInt, .attr "a"⟩, ⟨"b", exInt, .attr "b"⟩, ⟨"items", .iter .list wItemS, .attr "items"⟩]
+
+def wWorld : World where
+  outShape t := if t = wSrcT then some { fields := wSrcFields }
+    else if t = wItemS then some { fields := [⟨"x", exInt, .attr "x"⟩] } else none
+  inShape t := if t = wDstT then some wDstShape else if t = wItemD then some wItemShape else none
+  asIs s d := s == d
+
+/-- **`World.WF` is satisfiable** by a table with two destination shapes, an optional field in the middle
+    and keyword-only parameters -/
+theorem wWorld_WF : wWorld.WF := by
+  intro t s h
+  simp only [wWorld] at h
+  split at h
+  · cases h
+    exact {
+      fieldIds := by decide
+      paramNames := by decide
+      fieldParam := by decide
+      order := by simp [wDstShape, ParamOrder]
+      posOnlyRequired := by simp [wDstShape] }
+  · split at h
+    · cases h
+      exact {
+        fieldIds := by decide
+        paramNames := by decide
+        fieldParam := by decide
+        order := by simp [wItemShape, ParamOrder]
+        posOnlyRequired := by simp [wItemShape] }
+    · cases h
+
+def wRecipe : List Provider := [.policy (Pred.name "c") true]
+def wParams : List CtxParam := [⟨"a", exInt⟩, ⟨"x", exInt⟩]
+def wSrcLoc : Loc := { kind := .field, ty := wSrcT, fieldId := "src" }
+def wDstLoc : Loc := { kind := .typeHint, ty := wDstT }
+def wSrcVal : Val :=
+  .obj 0 [("a", .atom "int" "1"), ("b", .atom "int" "2"),
+    ("items", .seq .list [.obj 2 [("x", .atom "int" "5")], .obj 2 [("x", .atom "int" "6")]])]
+def wResult : Val :=
+  .obj 1 [("a", .atom "int" "9"), ("c", .atom "int" "7"), ("b", .atom "int" "2"),
+    ("items", .seq .tuple [.obj 3 [("x", .atom "int" "5")], .obj 3 [("x", .atom "int" "6")]])]
+
+/-- `convert_eq_spec` with all hypotheses discharged; the common value of both sides is the expected
+    object (parameter `a = 9` over the field, default of the skipped `c`, nested `x` from the items, not
+    from the parameter `x = 100`) -/
+theorem convert_eq_spec_witness :
+    ∃ c, mkCoercer wWorld wRecipe wParams 6 [wSrcLoc] [wDstLoc] = some c ∧ wWorld.WF ∧
+      (wParams.map (·.name)).Nodup ∧
+      applyCoercer c wSrcVal (packCtx [.atom "int" "9", .atom "int" "100"]) = some wResult ∧
+      coerceSpec wWorld wRecipe wParams (pvalsOf wParams [.atom "int" "9", .atom "int" "100"]) 6
+        [wSrcLoc] [wDstLoc] wSrcVal = some wResult := by
+  have hs : (mkCoercer wWorld wRecipe wParams 6 [wSrcLoc] [wDstLoc]).isSome = true := by rfl
+  have hspec : coerceSpec wWorld wRecipe wParams (pvalsOf wParams [.atom "int" "9", .atom "int" "100"]) 6
+      [wSrcLoc] [wDstLoc] wSrcVal = some wResult := by rfl
+  cases h : mkCoercer wWorld wRecipe wParams 6 [wSrcLoc] [wDstLoc] with
+  | none => rw [h] at hs; cases hs
+  | some c =>
+    refine ⟨c, rfl, wWorld_WF, by decide, ?_, hspec⟩
+    rw [convert_eq_spec wWorld wWorld_WF wRecipe wParams _ rfl (by decide) 6 _ _ c h wSrcVal]
+    exact hspec
+
+def wSig : Signature :=
+  { params := [⟨"src", .posOnly, wSrcT, none⟩, ⟨"a", .posOrKw, exInt, none⟩, ⟨"x", .posOrKw, exInt, some (.atom "int" "100")⟩],
+    ret := wDstT }
+
+/-- `call_eq_spec` / `signature_preserved`: the source passed positionally, `a` by keyword, `x` left to its
+    default -/
+theorem call_eq_spec_witness :
+    ∃ conv, provideConverter wWorld wRecipe 6 wSig = some conv ∧ conv.signature = wSig ∧
+      bindSig wSig.params [wSrcVal] [("a", .atom "int" "9")] = some [wSrcVal, .atom "int" "9", .atom "int" "100"] ∧
+      conv.call [wSrcVal] [("a", .atom "int" "9")] = some wResult := by
+  have hs : (provideConverter wWorld wRecipe 6 wSig).isSome = true := by rfl
+  have hb : bindSig wSig.params [wSrcVal] [("a", .atom "int" "9")] =
+      some [wSrcVal, .atom "int" "9", .atom "int" "100"] := by rfl
+  cases h : provideConverter wWorld wRecipe 6 wSig with
+  | none => rw [h] at hs; cases hs
+  | some conv =>
+    refine ⟨conv, rfl, signature_preserved _ _ _ _ _ h, hb, ?_⟩
+    rw [call_eq_spec wWorld wWorld_WF wRecipe 6 wSig (by decide) conv h _ _ _ hb]
+    rfl
+
+/-- `unlinked_no_converter`: without the policy the optional `c` is unlinked and forbidden; with a required
+    destination field `z` nobody provides, the converter is refused as well -/
+theorem unlinked_no_converter_witness : provideConverter wWorld [] 6 wSig = none :=
+  unlinked_no_converter wWorld [] 5 wSig _ _ rfl wDstShape { fields := wSrcFields } rfl rfl rfl
+    ⟨"c", exInt, false, some (.atom "int" "7")⟩ (by simp [wDstShape]) (by rfl) (.inr rfl)
+
+/-- `fuel_irrelevant` / `spec_fuel_irrelevant` have instances (the coercer above exists at fuel 6) -/
+theorem fuel_irrelevant_witness (m : Nat) (hm : 6 ≤ m) :
+    (mkCoercer wWorld wRecipe wParams m [wSrcLoc] [wDstLoc]).isSome = true := by
+  obtain ⟨c, h, _⟩ := convert_eq_spec_witness
+  rw [fuel_irrelevant _ _ _ 6 _ _ c h m hm]
+  rfl
+
+/-- `optional_spec_none_test` / `optional_converter_none_test` / `empty_iterable_rebuilt`: hypotheses
+    discharged for `Optional[int] -> Optional[str]` with a user coercer on the wrapped pair and for
+    `List[int] -> Tuple[int, ...]` -/
+theorem optional_witness :
+    let sl : Loc := { kind := .field, ty := .opt exInt, fieldId := "x" }
+    let dl : Loc := { kind := .typeHint, ty := .opt exStr }
+    ∃ c, mkCoercer exOptWorld [exIntToStr] [] 5 [sl] [dl] = some c ∧
+      applyCoercer c .none (packCtx []) = some .none ∧
+      applyCoercer c (.atom "int" "0") (packCtx []) = some (.app 7 [.atom "int" "0"] []) := by
+  intro sl dl
+  have hs : (mkCoercer exOptWorld [exIntToStr] [] 5 [sl] [dl]).isSome = true := by rfl
+  have hwf : exOptWorld.WF := by
+    intro t s h
+    simp only [exOptWorld] at h
+    split at h
+    · cases h
+      exact { fieldIds := by decide, paramNames := by decide, fieldParam := by simp,
+              order := by simp, posOnlyRequired := by simp }
+    · cases h
+  cases h : mkCoercer exOptWorld [exIntToStr] [] 5 [sl] [dl] with
+  | none => rw [h] at hs; cases hs
+  | some c =>
+    have := optional_converter_none_test exOptWorld hwf [exIntToStr] [] [] rfl (by decide) 4 sl dl [] []
+      exInt exStr rfl rfl rfl (.inl rfl) c h
+    refine ⟨c, rfl, this.1, ?_⟩
+    rw [this.2 (.atom "int" "0") (by intro e; cases e)]
+    rfl
+
+theorem empty_iterable_witness :
+    coerceSpec exOptWorld [] [] [] 5 [{ kind := .field, ty := .iter .list exInt, fieldId := "x" }]
+      [{ kind := .typeHint, ty := .iter .tuple exInt }] (.seq .list []) = some (.seq .tuple []) :=
+  empty_iterable_rebuilt exOptWorld [] [] [] 4 _ _ [] [] .list .tuple exInt exInt .list rfl rfl rfl (.inl rfl)
+
+/-! linking theorems: a request for the top-level field `c` of `D` (destination stack of length 2), sources
+    the three fields of `S`, three extra parameters -/
+
+def wFieldLoc (id : Name) (t : Ty) : Loc := { kind := .inputField, ty := t, fieldId := id }
+
+def wReq (target : Name) (dstRest : LocStack) : LinkReq :=
+  { srcStack := [wSrcLoc], sources := wSrcFields,
+    params := [⟨"k", exInt⟩, ⟨"a", exInt⟩, ⟨"x", exInt⟩], dst := wFieldLoc target exInt :: dstRest }
+
+def wBadFunc : FuncSig := { id := 5, params := [⟨"m", .posOrKw, wSrcT⟩, ⟨"nope", .kwOnly, exInt⟩] }
+
+/-- `first_link_wins`, `terminal_link_stops`, `default_when_all_decline` with a non-empty prefix of
+    declining providers (a policy, a link whose source predicate matches nothing) and a non-empty rest -/
+theorem recipe_order_witness :
+    let pre : List Provider := [.policy (Pred.name "c") true, .link (Pred.name "zz") (Pred.name "c") none]
+    let post : List Provider := [.link (Pred.name "a") (Pred.name "c") none]
+    (∀ q ∈ pre, q.provideLinking (wReq "c" [wDstLoc]) = .decline) ∧
+    linkOf (pre ++ .linkConstant (Pred.name "c") (.value (.atom "int" "3")) :: post) (wReq "c" [wDstLoc]) =
+      some (.const (.value (.atom "int" "3"))) ∧
+    linkOf (pre ++ .linkFunction wBadFunc (Pred.name "c") :: post) (wReq "c" [wDstLoc]) = none ∧
+    linkOf pre (wReq "c" [wDstLoc]) = defaultLinking (wReq "c" [wDstLoc]) ∧
+    linkOf (pre ++ post) (wReq "c" [wDstLoc]) = some (.field (.field ⟨"a", exInt, .attr "a"⟩) none) := by
+  intro pre post
+  have hpre : ∀ q ∈ pre, q.provideLinking (wReq "c" [wDstLoc]) = .decline := by
+    intro q hq
+    simp only [pre, List.mem_cons, List.not_mem_nil, or_false] at hq
+    rcases hq with rfl | rfl <;> rfl
+  exact ⟨hpre, first_link_wins pre post _ _ _ hpre rfl, terminal_link_stops pre post _ _ hpre rfl,
+    default_when_all_decline pre _ hpre, by rfl⟩
+
+/-- `explicit_link_candidates`: fields first, then parameters right to left -/
+theorem explicit_link_witness :
+    (Provider.link (Pred.name "x") (Pred.name "c") none).provideLinking (wReq "c" [wDstLoc]) =
+      .ok (.field (.param 2 ⟨"x", exInt⟩) none) := by
+  rw [explicit_link_candidates _ _ _ _ (by rfl)]
+  rfl
+
+/-- `param_over_field_top_level`, `nested_ignores_params`, `param_over_field_top_level_only`,
+    `field_when_no_param`, `from_param_any_level` with `before` and `after` non-empty -/
+theorem default_linking_witness :
+    defaultLinking (wReq "a" [wDstLoc]) = some (.field (.param 1 ⟨"a", exInt⟩) none) ∧
+    defaultLinking (wReq "a" [wDstLoc, wDstLoc]) = some (.field (.field ⟨"a", exInt, .attr "a"⟩) none) ∧
+    defaultLinking (wReq "b" [wDstLoc]) = some (.field (.field ⟨"b", exInt, .attr "b"⟩) none) ∧
+    (Provider.link (Pred.fromParam "a") (Pred.name "c") none).provideLinking (wReq "c" [wDstLoc, wDstLoc]) =
+      .ok (.field (.param 1 ⟨"a", exInt⟩) none) := by
+  refine ⟨?_, ?_, ?_, ?_⟩
+  · exact param_over_field_top_level (wReq "a" [wDstLoc]) [⟨"k", exInt⟩] [⟨"x", exInt⟩] ⟨"a", exInt⟩ rfl rfl rfl
+      (by intro q hq; simp only [List.mem_singleton] at hq; subst hq; decide)
+  · have := param_over_field_top_level_only (wReq "a" [wDstLoc, wDstLoc]) [⟨"k", exInt⟩] [⟨"x", exInt⟩] ⟨"a", exInt⟩
+      rfl rfl (by intro q hq; simp only [List.mem_singleton] at hq; subst hq; decide) ⟨"a", exInt, .attr "a"⟩ rfl
+    rw [this]
+    rfl
+  · rw [field_when_no_param (wReq "b" [wDstLoc]) (by
+      intro q hq
+      simp only [wReq, List.mem_cons, List.not_mem_nil, or_false] at hq
+      rcases hq with rfl | rfl | rfl <;> decide)]
+    rfl
+  · exact from_param_any_level "a" (Pred.name "c") none (wReq "c" [wDstLoc, wDstLoc]) [⟨"k", exInt⟩] [⟨"x", exInt⟩]
+      ⟨"a", exInt⟩ rfl rfl (by simp [wReq]) rfl
+      (by intro q hq; simp only [List.mem_singleton] at hq; subst hq; decide)
+
+/-- `extra_src_ignored` with a recipe of three providers (a link, a function link with a keyword-only
+    parameter, a constant) and the extra field inserted in the middle of the source model -/
+theorem extra_src_ignored_witness :
+    let recipe : List Provider :=
+      [.link (Pred.name "zz") (Pred.name "c") none,
+       .linkFunction { id := 4, params := [⟨"m", .posOrKw, wSrcT⟩, ⟨"b", .kwOnly, exInt⟩] } (Pred.name "c"),
+       .linkConstant (Pred.name "q") (.value .none)]
+    let e : OutField := ⟨"extra", exInt, .attr "extra"⟩
+    (∀ p ∈ recipe, p.ignoresField (wReq "c" [wDstLoc]) e) ∧
+    linkOf recipe ((wReq "c" [wDstLoc]).withExtra [⟨"a", exInt, .attr "a"⟩]
+      [⟨"b", exInt, .attr "b"⟩, ⟨"items", .iter .list wItemS, .attr "items"⟩] e) =
+      linkOf recipe (wReq "c" [wDstLoc]) ∧
+    (linkOf recipe (wReq "c" [wDstLoc])).isSome = true := by
+  intro recipe e
+  have hig : ∀ p ∈ recipe, p.ignoresField (wReq "c" [wDstLoc]) e := by
+    intro p hp
+    simp only [recipe, List.mem_cons, List.not_mem_nil, or_false] at hp
+    rcases hp with rfl | rfl | rfl
+    · rfl
+    · intro fp hfp hk
+      simp only [List.mem_cons, List.not_mem_nil, or_false] at hfp
+      rcases hfp with rfl | rfl
+      · cases hk
+      · decide
+    · trivial
+  exact ⟨hig, extra_src_ignored recipe _ _ _ e rfl (by decide) hig, by rfl⟩
+
+/-- `extra_src_ignored_value` on the converter above: a field `extra` inserted after `a` (the source value
+    carries it too) leaves the specified object unchanged, and that object is the expected one -/
+theorem extra_src_ignored_value_witness :
+    let e : OutField := ⟨"extra", exInt, .attr "extra"⟩
+    let pvals : List (Name × Val) := [("a", .atom "int" "9"), ("x", .atom "int" "100")]
+    let v : Val := .obj 0 [("a", .atom "int" "1"), ("extra", .atom "int" "0"), ("b", .atom "int" "2"),
+      ("items", .seq .list [.obj 2 [("x", .atom "int" "5")], .obj 2 [("x", .atom "int" "6")]])]
+    specModel (coerceSpec wWorld wRecipe wParams pvals 5) wRecipe wParams pvals [wSrcLoc] [wDstLoc] wDstShape
+        ([⟨"a", exInt, .attr "a"⟩] ++ e :: [⟨"b", exInt, .attr "b"⟩, ⟨"items", .iter .list wItemS, .attr "items"⟩]) v =
+      specModel (coerceSpec wWorld wRecipe wParams pvals 5) wRecipe wParams pvals [wSrcLoc] [wDstLoc] wDstShape
+        wSrcFields v ∧
+    specModel (coerceSpec wWorld wRecipe wParams pvals 5) wRecipe wParams pvals [wSrcLoc] [wDstLoc] wDstShape
+        wSrcFields v = some wResult := by
+  intro e pvals v
+  refine ⟨extra_src_ignored_value _ wRecipe wParams pvals [wSrcLoc] [wDstLoc] wDstShape _ _ e ?_ v, by rfl⟩
+  intro f hf
+  simp only [wDstShape, List.mem_cons, List.not_mem_nil, or_false] at hf
+  have hrec : ∀ (r : LinkReq), ∀ p ∈ wRecipe, p.ignoresField r e := by
+    intro r p hp
+    simp only [wRecipe, List.mem_singleton] at hp
+    subst hp
+    trivial
+  rcases hf with rfl | rfl | rfl | rfl <;> exact ⟨by decide, hrec _⟩
+
+/-- `unlinked_required_fails` / `unlinked_optional_policy`: a required destination field `z` nobody
+    provides; the optional `c` under the empty recipe and under `allow_unlinked_optional("c")` -/
+theorem unlinked_witness :
+    fetchFieldLinking [] (wReq "z" [wDstLoc]) ⟨"z", exInt, true, none⟩ = .failed ∧
+    fetchFieldLinking [] (wReq "c" [wDstLoc]) ⟨"c", exInt, false, none⟩ = .failed ∧
+    fetchFieldLinking wRecipe (wReq "c" [wDstLoc]) ⟨"c", exInt, false, none⟩ = .skipped := by
+  refine ⟨unlinked_required_fails [] _ _ rfl rfl, ?_, ?_⟩
+  · rw [unlinked_optional_policy [] _ _ rfl rfl]; rfl
+  · rw [unlinked_optional_policy wRecipe _ _ rfl rfl]; rfl
+
+/-- `src_untouched` on the plan of the converter above: evaluation succeeds and hands back the frame -/
+theorem src_untouched_witness :
+    ∃ p v, mkCoercer wWorld wRecipe wParams 6 [wSrcLoc] [wDstLoc] = some (.model p) ∧
+      runPlan ⟨wSrcVal, packCtx [.atom "int" "9", .atom "int" "100"]⟩ p =
+        some (v, ⟨wSrcVal, packCtx [.atom "int" "9", .atom "int" "100"]⟩) := by
+  have hs : (match mkCoercer wWorld wRecipe wParams 6 [wSrcLoc] [wDstLoc] with
+      | some (.model p) => (runPlan ⟨wSrcVal, packCtx [.atom "int" "9", .atom "int" "100"]⟩ p).isSome
+      | _ => false) = true := by rfl
+  cases h : mkCoercer wWorld wRecipe wParams 6 [wSrcLoc] [wDstLoc] with
+  | none => rw [h] at hs; cases hs
+  | some c =>
+    cases c with
+    | model p =>
+      rw [h] at hs
+      simp only at hs
+      cases hr : runPlan ⟨wSrcVal, packCtx [.atom "int" "9", .atom "int" "100"]⟩ p with
+      | none => rw [hr] at hs; cases hs
+      | some r =>
+        obtain ⟨v, st'⟩ := r
+        have := src_untouched _ p v st' hr
+        subst this
+        exact ⟨p, v, rfl, hr⟩
+    | _ => rw [h] at hs; cases hs
+
+end Witnesses
 
 end Adaptix.Conv13.C13
